@@ -109,6 +109,36 @@ def taskTypeFromText (s : List Char) : Option Nat :=
 
 def taskTypeString (v : Nat) : List Char := (taskNames[v]?.map String.toList).getD []
 
+/-! ### weekdays: the JSON string is the comma-joined names of the set days (Monday first);
+    decoding splits at commas, lower-cases each token and sets the days whose full name appears,
+    ignoring everything else (it never fails); `String()` joins the abbreviations -/
+
+def dayNames : List String := ["Monday", "Tuesday", "Wednesday", "Thursday", "Friday", "Saturday", "Sunday"]
+def dayAbbreviations : List String := ["Mon", "Tue", "Wed", "Thurs", "Fri", "Sat", "Sun"]
+
+def joinComma : List (List Char) → List Char
+  | [] => []
+  | [a] => a
+  | a :: b :: r => a ++ ',' :: joinComma (b :: r)
+
+/-- `strings.Split(s, ",")` -/
+def splitComma (s : List Char) : List (List Char) :=
+  let rec go : List Char → List Char → List (List Char)
+    | [], cur => [cur.reverse]
+    | c :: r, cur => if c = ',' then cur.reverse :: go r [] else go r (c :: cur)
+  go s []
+
+/-- `w` = the seven flags Monday..Sunday -/
+def weekdaysJSON (w : List Bool) : List Char :=
+  joinComma ((dayNames.zip w).filterMap fun p => if p.2 then some p.1.toList else none)
+
+def weekdaysString (w : List Bool) : List Char :=
+  joinComma ((dayAbbreviations.zip w).filterMap fun p => if p.2 then some p.1.toList else none)
+
+def weekdaysFromJSON (s : List Char) : List Bool :=
+  let toks := (splitComma s).map fun t => t.map lower
+  dayNames.map fun n => toks.contains (n.toList.map lower)
+
 /-! ### firmware version: "%04x" -/
 
 def hexd (n : Nat) : Char := if n < 10 then Char.ofNat (48 + n) else Char.ofNat (87 + n)
